@@ -59,7 +59,15 @@ structure Obj where
   bonds : List (Nat × Nat)     -- zero-based pairs (the bond type is not stored by PDB)
   deriving DecidableEq, Repr
 
-def recAtom : Str := "ATOM  ".toList
+def recAtom : Str := ['A','T','O','M',' ',' ']
+def recTitle : Str := ['T','I','T','L','E',' ',' ',' ',' ',' ']
+def recEnd : Str := ['E','N','D','\n']
+def kTitle : Str := ['T','I','T','L','E']
+def kCompnd : Str := ['C','O','M','P','N','D']
+def kAtom : Str := ['A','T','O','M']
+def kHetatm : Str := ['H','E','T','A','T','M']
+def kConect : Str := ['C','O','N','E','C','T']
+def kEnd : Str := ['E','N','D']
 
 /-- the fields of an ATOM record, in order -/
 def atomFields (T : Tables) (L : Layout) (serial : Nat) (a : Atom) : List Str :=
@@ -86,7 +94,7 @@ def chunk4 : Nat → List Nat → List (List Nat)
 def chunks (l : List Nat) : List (List Nat) := chunk4 (l.length + 1) l
 
 def conectLine (L : Layout) (a : Nat) (others : List Nat) : Str :=
-  "CONECT".toList ++ (rjust L.conW (natToDec (a + 1)) ++ ((others.map fun b => rjust L.conW (natToDec (b + 1))).flatten ++ ['\n']))
+  kConect ++ (rjust L.conW (natToDec (a + 1)) ++ ((others.map fun b => rjust L.conW (natToDec (b + 1))).flatten ++ ['\n']))
 
 def dumpConect (L : Layout) (natom : Nat) (bonds : List (Nat × Nat)) : List Str :=
   ((connections natom bonds).zipIdx.flatMap fun (cs, a) =>
@@ -96,8 +104,8 @@ def outTitle (L : Layout) (t : Str) : Str := if t.isEmpty then L.defaultTitle el
 
 /-- `dump_one` (bonds `None` or empty: no CONECT records) -/
 def dump (T : Tables) (L : Layout) (o : Obj) : List Str :=
-  ("TITLE     ".toList ++ (outTitle L o.title ++ ['\n'])) :: (dumpAtomsFrom T L 0 o.atoms
-    ++ (dumpConect L o.atoms.length o.bonds ++ [ln "END".toList]))
+  (recTitle ++ (outTitle L o.title ++ ['\n'])) :: (dumpAtomsFrom T L 0 o.atoms
+    ++ (dumpConect L o.atoms.length o.bonds ++ [recEnd]))
 
 def dumpE (T : Tables) (L : Layout) (o : Obj) : Except Unit (List Str) :=
   if o.atoms.all (fun a => (T.sym? a.zn).isSome) && o.bonds.all (fun b => b.1 < o.atoms.length && b.2 < o.atoms.length)
@@ -109,10 +117,9 @@ def sl (p : Nat × Nat) (s : Str) : Str := slice p.1 p.2 s
 def parseAtom (T : Tables) (L : Layout) (line : Str) : R Atom :=
   let symbol := strip (sl L.sSym line)
   let name := strip (sl L.sName line)
-  -- element: from columns 77-78, else guessed from the atom name; `None` with a symbol present raises
-  -- (the warning text refers to the unassigned `atname`), `None` without one gives 0
+  -- element: `sym2num.get(symbol.title())` from columns 77-78, else guessed from the atom name; unknown → 0
   let zn : R Nat :=
-    if !symbol.isEmpty then optE .sym (T.num? symbol)
+    if !symbol.isEmpty then .ok ((T.num? (title symbol)).getD 0)
     else .ok (((T.num? name).or ((T.num? (title (name.take 2))).or (T.num? (name.take 1)))).getD 0)
   match zn with
   | .error e => .error e
@@ -153,10 +160,10 @@ structure St where
 
 /-- one pass of the `while True` body; `true` = `break` -/
 def step (T : Tables) (L : Layout) (st : St) (line : Str) : R (St × Bool) :=
-  let st1 : St := if startsWith "TITLE".toList line then { st with titles := st.titles ++ [strip (sliceFrom L.titleFrom line)] } else st
-  let st2 : St := if startsWith "COMPND".toList line then { st1 with compnds := st1.compnds ++ [strip (sliceFrom L.titleFrom line)] } else st1
+  let st1 : St := if startsWith kTitle line then { st with titles := st.titles ++ [strip (sliceFrom L.titleFrom line)] } else st
+  let st2 : St := if startsWith kCompnd line then { st1 with compnds := st1.compnds ++ [strip (sliceFrom L.titleFrom line)] } else st1
   let r3 : R St :=
-    if startsWith "ATOM".toList line || startsWith "HETATM".toList line then
+    if startsWith kAtom line || startsWith kHetatm line then
       match parseAtom T L line with
       | .error e => .error e
       | .ok a => .ok { st2 with atoms := st2.atoms ++ [a] }
@@ -165,14 +172,14 @@ def step (T : Tables) (L : Layout) (st : St) (line : Str) : R (St × Bool) :=
   | .error e => .error e
   | .ok st3 =>
     let r4 : R St :=
-      if startsWith "CONECT".toList line then
+      if startsWith kConect line then
         match parseConect L line with
         | .error e => .error e
         | .ok bs => .ok { st3 with bonds := st3.bonds ++ bs }
       else .ok st3
     match r4 with
     | .error e => .error e
-    | .ok st4 => .ok (st4, startsWith "END".toList line && !st4.atoms.isEmpty)
+    | .ok st4 => .ok (st4, startsWith kEnd line && !st4.atoms.isEmpty)
 
 def loop (T : Tables) (L : Layout) : St → List Str → R St
   | st, [] => .ok st
@@ -210,5 +217,98 @@ def normBonds (natom : Nat) (bonds : List (Nat × Nat)) : List (Nat × Nat) :=
 
 def norm (L : Layout) (o : Obj) : Loaded :=
   ⟨outTitle L o.title, none, o.atoms, !o.atoms.all (fun a => a.chain == ' '), normBonds o.atoms.length o.bonds⟩
+
+def okTitle (t : Str) : Bool := decide (Trimmed t) && !t.contains '\n'
+
+def fitsFx (w d : Nat) (v : Fx) : Bool := decide ((fixCore false d v).length ≤ w)
+
+/-- element usable in the two element columns: blank-free, one or two characters, `sym2num.get(sym.title())` maps it back -/
+def okZ (T : Tables) (z : Nat) : Bool :=
+  match T.sym? z with
+  | none => false
+  | some s => decide (NoWs s) && !s.isEmpty && decide (s.length ≤ 2) && (T.num? (title s) == some z)
+
+def okField (w : Nat) (s : Str) : Bool := decide (Trimmed s) && decide (s.length ≤ w) && !s.contains '\n'
+
+/-- an atom whose every field fits its columns -/
+def AtomOK (T : Tables) (L : Layout) (a : Atom) : Prop :=
+  okZ T a.zn = true ∧ okField L.nameW a.name = true ∧ okField L.resW a.res = true ∧ a.chain ≠ '\n' ∧
+  (intToDec a.resnum).length ≤ L.resnumW ∧
+  fitsFx L.coordW L.coordD a.x = true ∧ fitsFx L.coordW L.coordD a.y = true ∧ fitsFx L.coordW L.coordD a.z = true ∧
+  fitsFx L.occW L.occD a.occ = true ∧ fitsFx L.occW L.occD a.b = true
+
+instance (T : Tables) (L : Layout) (a : Atom) : Decidable (AtomOK T L a) := by unfold AtomOK; infer_instance
+
+/-- writer columns = reader slices -/
+def LayoutOK (L : Layout) : Prop :=
+  okTitle L.defaultTitle = true ∧ L.defaultTitle ≠ [] ∧ 2 ≤ L.symW ∧ L.titleFrom = 10 ∧
+  L.sName = (7 + L.serialW, 7 + L.serialW + L.nameW) ∧
+  L.sRes = (8 + L.serialW + L.nameW, 8 + L.serialW + L.nameW + L.resW) ∧
+  L.iChain = 9 + L.serialW + L.nameW + L.resW ∧
+  L.sResnum = (L.iChain + 1, L.iChain + 1 + L.resnumW) ∧
+  L.sX = (L.iChain + 1 + L.resnumW + L.gap4, L.iChain + 1 + L.resnumW + L.gap4 + L.coordW) ∧
+  L.sY = (L.sX.2, L.sX.2 + L.coordW) ∧ L.sZ = (L.sY.2, L.sY.2 + L.coordW) ∧
+  L.sOcc = (L.sZ.2, L.sZ.2 + L.occW) ∧ L.sB = (L.sOcc.2, L.sOcc.2 + L.occW) ∧
+  L.sSym = (L.sB.2 + L.symW - 2, L.sB.2 + L.symW)
+
+instance (L : Layout) : Decidable (LayoutOK L) := by unfold LayoutOK; infer_instance
+
+/-- domain of the model without CONECT records: single-line title, every atom fits, serials fit -/
+def Dom (T : Tables) (L : Layout) (o : Obj) : Prop :=
+  okTitle o.title = true ∧ o.atoms ≠ [] ∧ o.atoms.length < 10 ^ L.serialW ∧ 0 < L.serialW ∧
+  (∀ a ∈ o.atoms, AtomOK T L a) ∧ o.bonds = []
+
+instance (T : Tables) (L : Layout) (o : Obj) : Decidable (Dom T L o) := by unfold Dom; infer_instance
+
+end Iodata.Fmt.Pdb
+
+namespace Iodata.Fmt.Pdb
+open Iodata.Chars Iodata.Decimal Iodata.Fmt
+
+/-! ### shape of the source the model assumes (compared with `Gen.Layouts.pdb_writes` / `pdb_slices`) -/
+
+def expectedAtomWrite (L : Layout) : Write :=
+  ("dump_one".toList,
+   [.lit recAtom, .int "i + 1".toList L.serialW, .lit [' '], .str "attype".toList L.nameW false, .lit [' '],
+    .str "restype".toList L.resW false, .lit [' '], .str "chain".toList 1 false, .int "resnum".toList L.resnumW,
+    .lit (spaces L.gap4), .fix ['x'] false L.coordW L.coordD, .fix ['y'] false L.coordW L.coordD,
+    .fix ['z'] false L.coordW L.coordD, .fix "occ".toList false L.occW L.occD, .fix ['b'] false L.occW L.occD,
+    .str ['n'] L.symW true, .lit ['\n']])
+
+def expectedConectWrite (L : Layout) : Write :=
+  ("dump_one".toList,
+   [.lit kConect, .int "iatom0 + 1".toList L.conW,
+    .other "<join '' for iatom1 in iatoms1[ichunk * 4:ichunk * 4 + 4]>".toList, .int "iatom1 + 1".toList L.conW,
+    .other "</join>".toList, .lit ['\n']])
+
+def expectedSlices (L : Layout) : List Slice :=
+  let f := "_parse_pdb_atom_line".toList
+  let g := "_parse_pdb_conect_line".toList
+  let h := "load_one".toList
+  [ ⟨f, "symbol".toList, L.sSym.1, some L.sSym.2, false⟩, ⟨f, "atname".toList, L.sName.1, some L.sName.2, false⟩,
+    ⟨f, "atname".toList, L.sName.1, some L.sName.2, false⟩, ⟨f, "resname".toList, L.sRes.1, some L.sRes.2, false⟩,
+    ⟨f, "chainid".toList, L.iChain, some (L.iChain + 1), true⟩, ⟨f, "resnum".toList, L.sResnum.1, some L.sResnum.2, false⟩,
+    ⟨f, "atcoord".toList, L.sX.1, some L.sX.2, false⟩, ⟨f, "atcoord".toList, L.sY.1, some L.sY.2, false⟩,
+    ⟨f, "atcoord".toList, L.sZ.1, some L.sZ.2, false⟩, ⟨f, "occupancy".toList, L.sOcc.1, some L.sOcc.2, false⟩,
+    ⟨f, "bfactor".toList, L.sB.1, some L.sB.2, false⟩, ⟨g, "iatom0".toList, L.cSerial.1, some L.cSerial.2, false⟩ ]
+  ++ L.cOthers.map (fun p => ⟨g, "serial_str".toList, p.1, some p.2, false⟩)
+  ++ [ ⟨h, "<expr>".toList, L.titleFrom, none, false⟩, ⟨h, "<expr>".toList, L.titleFrom, none, false⟩ ]
+
+/-- the reader's ATOM columns: name, residue, chain, resSeq, x, y, z, occupancy, tempFactor, element -/
+def readerColumns (L : Layout) : List (Nat × Nat) :=
+  [L.sName, L.sRes, (L.iChain, L.iChain + 1), L.sResnum, L.sX, L.sY, L.sZ, L.sOcc, L.sB, L.sSym]
+
+/-- wwPDB format v3.3, ATOM/HETATM record (columns 13-16, 18-20, 22, 23-26, 31-38, 39-46, 47-54, 55-60, 61-66, 77-78) -/
+def specAtomColumns : List (Nat × Nat) :=
+  [(12, 16), (17, 20), (21, 22), (22, 26), (30, 38), (38, 46), (46, 54), (54, 60), (60, 66), (76, 78)]
+
+/-- wwPDB format v3.3, CONECT record: serial 7-11, bonded atoms 12-16, 17-21, 22-26, 27-31 -/
+def specConectColumns : List (Nat × Nat) := [(6, 11), (11, 16), (16, 21), (21, 26), (26, 31)]
+
+def conectColumns (L : Layout) : List (Nat × Nat) := L.cSerial :: L.cOthers
+
+/-- the columns the CONECT *writer* fills: `CONECT` then five `conW`-wide fields -/
+def conectWriterColumns (L : Layout) : List (Nat × Nat) :=
+  (List.range 5).map fun k => (6 + k * L.conW, 6 + (k + 1) * L.conW)
 
 end Iodata.Fmt.Pdb
